@@ -1,6 +1,7 @@
 (* C03 correspondence harness: executable checks evaluated by vm_compute on cases written by harness/py/checks/c03.py.
    The inferrer is C06's model instantiated with the digit tables regenerated from /repo. *)
 From Miller Require Import Base.Bytes Base.Record C06.Model C06.Harness C03.Model.
+From Miller Require C05.Model.
 Open Scope Z_scope.
 
 Definition sentinel : bytes := B "#OFMT#".
@@ -57,3 +58,14 @@ Definition prog_case := (Z * list ract * record * record)%type.
 Definition chk_prog (c : prog_case) : bool :=
   let '(f, prog, rin, rout) := c in
   cells_ok (run_program (inferrer_of f) None prog rin) rout.
+
+(* ---- the same from the input LINE: (flag, dedupe, program, (key, value) pairs of the line in order, observed output).
+   The reader's record construction (RecordArena.PutDeferred: repeated names are renamed k_2, k_3, ... by default; with
+   --no-dedupe-field-names the later value replaces the earlier one in place) is C05's model of it. *)
+Definition read_line (dedupe : bool) (l : record) : record := C05.Model.of_pairs dedupe l [].
+
+Definition prog_case2 := (Z * bool * list ract * record * record)%type.
+
+Definition chk_prog2 (c : prog_case2) : bool :=
+  let '(f, dd, prog, line, rout) := c in
+  cells_ok (run_program (inferrer_of f) None prog (read_line dd line)) rout.
